@@ -111,7 +111,7 @@ pub fn read_array(src: &mut &[u8], n: usize) -> io::Result<Vec<u8>> {
     while z < n {
         let run = read_u8(src)?;
 
-        runs[j] = run;
+        *runs.get_mut(j).ok_or_else(invalid_run_length)? = run;
         j += 1;
         z += usize::from(run);
 
@@ -119,7 +119,7 @@ pub fn read_array(src: &mut &[u8], n: usize) -> io::Result<Vec<u8>> {
             let copy = read_u8(src)?;
 
             for _ in 0..copy {
-                runs[j] = run;
+                *runs.get_mut(j).ok_or_else(invalid_run_length)? = run;
                 j += 1;
             }
 
@@ -131,15 +131,17 @@ pub fn read_array(src: &mut &[u8], n: usize) -> io::Result<Vec<u8>> {
 
     let mut a = vec![0; n];
 
-    let mut i = 0;
+    let mut values = 0..=u8::MAX;
     j = 0;
     z = 0;
 
     while z < n {
+        let i = values.next().ok_or_else(invalid_run_length)?;
+
         let mut run_len = 0;
 
         loop {
-            let part = runs[j];
+            let part = *runs.get(j).ok_or_else(invalid_run_length)?;
             j += 1;
             run_len += usize::from(part);
 
@@ -149,12 +151,14 @@ pub fn read_array(src: &mut &[u8], n: usize) -> io::Result<Vec<u8>> {
         }
 
         for _ in 0..run_len {
-            a[z] = i;
+            *a.get_mut(z).ok_or_else(invalid_run_length)? = i;
             z += 1;
         }
-
-        i += 1;
     }
 
     Ok(a)
+}
+
+fn invalid_run_length() -> io::Error {
+    io::Error::new(io::ErrorKind::InvalidData, "invalid array run length")
 }
